@@ -790,6 +790,22 @@ IB__adapt__(PyObject* self, PyObject* obj)
 
     module = _get_module(Py_TYPE(self));
 
+    if (PyDict_GetItemString(Py_TYPE(self)->tp_dict,
+                             "_CALL_CUSTOM_PROVIDEDBY")) {
+        /* ``providedBy`` is overridden (InterfaceClass.__init_subclass__
+           sets the flag): ask the method, like ``self.providedBy(obj)`` in
+           the Python version, instead of inlining the check. */
+        PyObject* r;
+        r = PyObject_CallMethod(self, "providedBy", "(O)", obj);
+        if (r == NULL)
+            return NULL;
+        implements = PyObject_IsTrue(r);
+        Py_DECREF(r);
+        if (implements < 0)
+            return NULL;
+        goto checked;
+    }
+
     decl = providedBy(module, obj);
     if (decl == NULL)
         return NULL;
@@ -820,6 +836,7 @@ IB__adapt__(PyObject* self, PyObject* obj)
         Py_DECREF(r);
     }
 
+checked:
     if (implements) {
         Py_INCREF(obj);
         return obj;
